@@ -5,6 +5,11 @@ replayed on the real code, which recorded traces are validated.  See DESIGN.md s
 def c07(ctx, res):
     cfg = "MC_C07_quick.cfg" if ctx.quick else "MC_C07_thorough.cfg"
     ctx.gen_replay(res, "vfp", "MC_C07.tla", cfg)
+    if not ctx.quick:
+        ctx.gen_replay(res, "vfp", "MC_C07.tla", "MC_C07_thorough2.cfg")
+    # every pair of small Maps as sibling list members (state carried between siblings)
+    ctx.gen_replay(res, "vfp", "MC_C07.tla", "MC_C07_pairs.cfg" if ctx.quick else "MC_C07_pairs_thorough.cfg")
+    ctx.gen_replay(res, "vfpw", "MC_Wide.tla", "MC_Wide_vfp.cfg")
     res.assumptions += ["results of wildcard paths are compared as bags (Go map iteration order)",
                         "tagged value codec and token dictionary of the harness"]
 
@@ -12,6 +17,8 @@ def c07(ctx, res):
 def c08(ctx, res):
     cfg = "MC_C08_quick.cfg" if ctx.quick else "MC_C08_thorough.cfg"
     ctx.gen_replay(res, "vfk", "MC_C08.tla", cfg)
+    ctx.gen_replay(res, "vfk", "MC_C08.tla", "MC_C08_deep.cfg")   # deeper Maps (7 nodes), no conditions
+    ctx.gen_replay(res, "vfkw", "MC_Wide.tla", "MC_Wide_vfk.cfg")
     res.assumptions += ["results of key searches are compared as bags (Go map iteration order)",
                         "sub-key strings are rendered from abstract conditions by the harness, under both field separators"]
 
